@@ -81,6 +81,11 @@ def _interleave(a, b):
     return out + a[m:] + b[m:]
 
 
+def _rows(xs, k):
+    """a list of rows searched for a row (the items' own equality is what matters)"""
+    return isinstance(k, list) and len(xs) > 0 and all(isinstance(x, list) for x in xs)
+
+
 class Law:
     def __init__(self, name, op, arity, expect, pre=None, cmp="eq", nres=1):
         self.name, self.op, self.arity, self.expect, self.pre, self.cmp, self.nres = name, op, arity, expect, pre, cmp, nres
@@ -140,10 +145,10 @@ LAWS = [
     Law("cartesian-product", "Ẋ", 2, lambda xs, ys: [[a, b] for a in xs for b in ys], pre=lambda xs, ys: isinstance(ys, list), cmp="multiset"),
     Law("union", "∪", 2, lambda xs, ys: _uniq(xs + ys), pre=lambda xs, ys: isinstance(ys, list), cmp="set"),
     # dyads: list x int
-    Law("count", "O", 2, lambda xs, k: xs.count(k), pre=lambda xs, k: isinstance(k, int)),
-    Law("contains", "c", 2, lambda xs, k: int(k in xs), pre=lambda xs, k: isinstance(k, int)),
-    Law("find", "ḟ", 2, lambda xs, k: xs.index(k) if k in xs else -1, pre=lambda xs, k: isinstance(k, int)),
-    Law("remove", "o", 2, lambda xs, k: [x for x in xs if x != k], pre=lambda xs, k: isinstance(k, int)),
+    Law("count", "O", 2, lambda xs, k: xs.count(k), pre=lambda xs, k: isinstance(k, int) or _rows(xs, k)),
+    Law("contains", "c", 2, lambda xs, k: int(k in xs), pre=lambda xs, k: isinstance(k, int) or _rows(xs, k)),
+    Law("find", "ḟ", 2, lambda xs, k: xs.index(k) if k in xs else -1, pre=lambda xs, k: isinstance(k, int) or _rows(xs, k)),
+    Law("remove", "o", 2, lambda xs, k: [x for x in xs if x != k], pre=lambda xs, k: isinstance(k, int) or _rows(xs, k)),
     Law("prepend", "p", 2, lambda xs, k: [k] + xs, pre=lambda xs, k: isinstance(k, int)),
     Law("index", "i", 2, lambda xs, k: xs[k % len(xs)], pre=lambda xs, k: isinstance(k, int) and k >= 0 and len(xs) > 0),
     Law("wrap", "ẇ", 2, lambda xs, k: _chunks(xs, k), pre=lambda xs, k: isinstance(k, int) and k >= 1),
@@ -209,6 +214,14 @@ def _mk(xs, mode):
         return _mk(_sym(xs), mode - 2)
     if mode in (4, 5):
         return _mk(_mixed(xs, 1) if isinstance(xs, list) else xs, mode - 4)
+    if mode in (6, 7):
+        # items that are lists are LAZY lists (what ∩, ɾɾ, vs and every vectorised element produce); 7: the outer list too
+        def lz(x):
+            return LazyList(iter([lz(y) for y in x])) if isinstance(x, list) else x
+        if not isinstance(xs, list):
+            return xs
+        inner = [lz(x) for x in xs]
+        return LazyList(iter(inner)) if mode == 7 else inner
     if mode and isinstance(xs, list):
         return LazyList(iter([(_mk(x, 0) if isinstance(x, list) else x) for x in xs]))
     return [(list(x) if isinstance(x, list) else x) for x in xs] if isinstance(xs, list) else xs
@@ -216,7 +229,7 @@ def _mk(xs, mode):
 
 MODES = (0, 1, 2, 3, 4, 5)
 MODE_TAG = {0: "eager", 1: "lazy", 2: "eager, sympy Integers", 3: "lazy, sympy Integers", 4: "eager, Python ints and sympy Integers mixed",
-            5: "lazy, Python ints and sympy Integers mixed", False: "eager", True: "lazy"}
+            5: "lazy, Python ints and sympy Integers mixed", 6: "eager list of lazy rows", 7: "lazy list of lazy rows", False: "eager", True: "lazy"}
 
 
 def check(name, args, lazy):
@@ -347,7 +360,8 @@ def _str_laws_on(rec, s_, cls, seconds):
 # lists whose items are strings / lists: ordering laws must use the items' own order
 ITEM_LAWS = ["sort", "sort-is-permutation", "reverse", "reverse-involution", "uniquify", "grade-up", "grade-down", "counts", "group-consecutive", "prefixes"]
 ITEMS_STR = ["a", "b", "B", "ab", ""]
-ITEMS_LST = [[], [1], [1, 2], [2], [0, 5]]
+ITEMS_LST = [[], [1], [1, 2], [2], [1, 0], [1, -1]]
+ROW_NEEDLES = [[], [1], [1, 2], [1, 0]]
 
 
 def _item_ok(x):
@@ -364,9 +378,15 @@ def _shard_items(rec, arg):
                 if i % nshards != shard:
                     continue
                 xs = [list(x) if isinstance(x, list) else x for x in tup]
+                modes = (0, 1, 6, 7) if pool is ITEMS_LST else (0, 1)
                 for nm in ITEM_LAWS:
-                    for lazy in (0, 1):
+                    for lazy in modes:
                         _do(rec, nm, [xs], lazy, "exhaustive-string-and-list-items")
+                if pool is ITEMS_LST:
+                    for needle in ROW_NEEDLES:
+                        for nm in ("count", "contains", "find", "remove"):
+                            for lazy in modes:
+                                _do(rec, nm, [xs, list(needle)], lazy, "exhaustive-string-and-list-items")
     if shard == 0:
         rec.sample({"xs": ["b", "a", "B"], "law": "grade-down", "a valid grading": [0, 1, 2]})
 
@@ -429,7 +449,9 @@ def replay(case):
     if not isinstance(args[0], list):
         return None
     if name in ITEM_LAWS and args[0] and all(_item_ok(x) for x in args[0]) and len(args) == 1:
-        return check(name, args, int(case.get("lazy") or 0) if case.get("lazy") in (0, 1) else 0)
+        return check(name, args, int(case.get("lazy") or 0) if case.get("lazy") in (0, 1, 6, 7) else 0)
+    if name in ("count", "contains", "find", "remove") and len(args) == 2 and isinstance(args[1], list) and args[0] and all(_item_ok(x) and isinstance(x, list) for x in args[0]) and _item_ok(args[1]):
+        return check(name, args, int(case.get("lazy") or 0) if case.get("lazy") in (0, 1, 6, 7) else 0)
     if any(not isinstance(x, int) or isinstance(x, bool) for x in args[0]):
         return None
     law = LAW_BY_NAME[name]
